@@ -101,6 +101,22 @@ def c01(scn, run):
         # completeness only claimed when every finished task was complete
         last = [e for e in run["trace"] if e["e"] in ("tick_end", "shutdown")][-1]["snap"]["tasks"]
         if not last and clos - sub:
+            def abs_plus_preinitial(m):
+                # every prerequisite atom is pre-initial or an absolute trigger, with at least one of each, and the
+                # instance is not the first dependent of the absolute trigger
+                ats = [a for ex in g[m]["prereqs"] for a in S.atoms_c(ex)]
+                return (ats and all(a["pre"] or a["abs"] for a in ats) and any(a["pre"] for a in ats)
+                        and any(a["abs"] and not a["pre"] for a in ats))
+
+            def only_via(m, lost, seen=()):
+                ups = {tuple(a["id"]) for ex in g[m]["prereqs"] for a in S.atoms_c(ex) if not a["pre"] and tuple(a["id"]) in g}
+                return m in lost or (ups and any(u in (clos - sub) and u not in seen and only_via(u, lost, seen + (m,)) for u in ups))
+            lost = {m for m in clos - sub if abs_plus_preinitial(m)}
+            if lost and all(only_via(m, lost) for m in clos - sub):
+                return (f"{[list(m) for m in sorted(lost)]} never spawned: besides an absolute trigger (satisfied) all their parents are "
+                        f"pre-initial, so they are neither parentless (a non-absolute trigger exists) nor spawned by a parent (the "
+                        f"absolute parent spawns only its first dependent); they and their descendants "
+                        f"{[list(m) for m in sorted((clos - sub) - lost)]} do not run and the workflow shuts down as complete")
             return f"shut down automatically without running closure instances {sorted(clos - sub)}"
     return None
 
